@@ -187,6 +187,38 @@ pub fn run() -> i32 {
     r.boxes.push(json!({"box": "alpha bound at one position, used plain / inverted at a later one (context-context, input-context, exception, context-then-exception, input-then-exception)", "rules": forms.len(), "outer_segments": pick.len(), "cases": t3.evals, "model_predicts_firing": t3.nontrivial}));
     r.guard(t3.nontrivial > 10_000, "box 3: more than 10k cases fire");
     tot.evals += t3.evals; tot.nontrivial += t3.nontrivial; tot.viols.extend(t3.viols); tot.states.extend(t3.states);
+    // ---- box 4: an alpha inside an alternative of a set. The alternatives are disjoint (`[αF, vG]` and `[-vG]`), so which one is taken
+    // does not depend on the order of trial or on backtracking; a binding made by an alternative that was then rejected (F is tested
+    // before G or after it, depending on the feature order) must not reach the later `[αF]`
+    let mut sforms: Vec<(usize, usize, bool, bool, bool, u8)> = vec![];
+    for f in 0..26 { for g in &fsub { if f != *g { for v in [true, false] { for i1 in [false, true] { for i2 in [false, true] { for form in 0..2u8 { sforms.push((f, *g, v, i1, i2, form)); } } } } } } }
+    let mut t4 = Acc { evals: 0, nontrivial: 0, viols: vec![], states: Default::default(), fired: 0 };
+    par_fold(sforms.len(), 2, || Acc { evals: 0, nontrivial: 0, viols: vec![], states: Default::default(), fired: 0 }, |i, a| {
+        let (f, g, v, i1, i2, form) = sforms[i];
+        let m = |inv: bool| format!("{}α{}", if inv { "-" } else { "" }, FEATS[f].0);
+        let sg = |pos: bool| format!("{}{}", if pos { "+" } else { "-" }, FEATS[g].0);
+        let set = format!("{{[{}, {}], [{}]}}", m(i1), sg(v), sg(!v));
+        let text = if form == 0 { format!("t > [tone:7] / _ {} [{}]", set, m(i2)) } else { format!("{} > [tone:7] / _ [{}]", set, m(i2)) };
+        let Out::Ok(Ok(compiled)) = guarded(5_000_000, || av::compile(&[group(&[&text])])) else { a.viols.push(Viol { key: format!("compile|{}", text), desc: format!("`{}` does not compile", text), case: json!({"rule": text}) }); return; };
+        for x in &pick { for y in &pick {
+            if *x == tt || *y == tt || x == y { continue; }
+            let w: CW = if form == 0 { vec![CSyl { segs: vec![tt, *x, *y], stress: 0, tone: 0 }] } else { vec![CSyl { segs: vec![*x, *y], stress: 0, tone: 0 }] };
+            let first = model::feat(*x, g) == Some(v) && model::feat(*x, f).is_some();
+            let second = model::feat(*x, g) == Some(!v);
+            let fires = if first { let alpha = model::feat(*x, f).unwrap() ^ i1; model::feat(*y, f) == Some(alpha ^ i2) } else if second { model::feat(*y, f).is_some() } else { false };
+            let mut e = w.clone(); if fires { e[0].tone = 7; }
+            a.evals += 1;
+            match guarded(200_000, || av::apply_group(&compiled, 0, word_of(&w)).map(|x| cw_of(&x))) {
+                Out::Ok(Ok(got)) if got == e => { if fires { a.nontrivial += 1; } a.states.insert(hash64(&(f, g, v, i1, i2, form, fires, first))); }
+                Out::Ok(Ok(got)) => a.viols.push(Viol { key: format!("{}|{}", text, show_cw(&w)), desc: format!("`{}` on /{}/: model /{}/ (first alternative {} the set's segment; {} = {:?} there, {:?} on the last segment), implementation /{}/", text, show_cw(&w), show_cw(&e), if first { "matches" } else { "does not match" }, FEATS[f].0, model::feat(*x, f), model::feat(*y, f), show_cw(&got)), case: json!({"rule2": text, "word": cw_json(&w), "expected": cw_json(&e)}) }),
+                Out::Ok(Err(er)) => a.viols.push(Viol { key: format!("{}|{}", text, show_cw(&w)), desc: format!("`{}` on /{}/: error {:?}", text, show_cw(&w), er), case: json!({"rule2": text, "word": cw_json(&w), "expected": cw_json(&e)}) }),
+                o => a.viols.push(Viol { key: format!("crash|{}", text), desc: o.crash_desc().unwrap(), case: json!({"rule2": text, "word": cw_json(&w), "expected": cw_json(&e)}) }),
+            }
+        } }
+    }, |a| { t4.evals += a.evals; t4.nontrivial += a.nontrivial; t4.viols.extend(a.viols); t4.states.extend(a.states); });
+    r.boxes.push(json!({"box": "alpha inside a set alternative (context set / input set), later use plain or inverted; disjoint alternatives", "rules": sforms.len(), "outer_segments": pick.len(), "cases": t4.evals, "model_predicts_firing": t4.nontrivial}));
+    r.guard(t4.nontrivial > 10_000, "box 4: more than 10k cases fire");
+    tot.evals += t4.evals; tot.nontrivial += t4.nontrivial; tot.viols.extend(t4.viols); tot.states.extend(t4.states);
     r.evaluations = tot.evals; r.transitions = tot.evals; r.validated = tot.evals; r.nontrivial = tot.nontrivial;
     r.states = tot.states;
     r.boxes.push(json!({"box": "ops x segments", "ops": ops.len(), "segments": segs.len(), "cases": tot.evals, "model_predicts_change_or_fire": tot.nontrivial}));
